@@ -292,7 +292,7 @@ def c06(run):
         sched_runs(run, h, ("cache", "cacheof"), "range", ("CALLBACK",), quick=(40, 6), lin=False)
         sched_runs(run, h, ("cache", "cacheof"), "lazy", ("CALLBACK", "NONLIN"), quick=(80, 6))
         # overlapping / nested cleanup passes after a warm-up pass (callback may start another pass)
-        sched_runs(run, h, ("cache", "cacheof"), "sweeps", ("CALLBACK", "PANIC", "DEADLOCK", "STEP-BUDGET"), quick=(60, 6), lin=False)
+        sched_runs(run, h, ("cache", "cacheof"), "sweeps", ("CALLBACK", "PANIC", "DEADLOCK", "STEP-BUDGET", "HANG"), quick=(60, 6), lin=False)
         trace_cache_runs(run, h, quick=(40, 4))
     if ch:
         R.native_run(run, "janitor_callbacks", [ch, "janitor"], ["BAD", "panic:"])
